@@ -102,6 +102,20 @@ the v3 encoder, was caught at once because four instances share one process ther
 an error** (C12: a batch outlasting the observer's time limit - the completed batches' results must still be
 routed); and two **boundary inputs** (C01: thirty quorum results of 70 KB, where a byte budget displaced votes;
 C03: a unit at quorum in two versions that are not adjacent in the sorted traversal).
+Wave 6 (20 changes for the other ten properties, ids `Cxx-w6-k`) ran after those lessons had been applied across the
+harnesses (views and dequeued slices re-read later in C10 / C11, an earlier Report round in C16, another digest
+reaching the sequence number first in C08). 16 of 20 were flagged on the first run - among them a parallel decode
+tallied in completion order, a map-ordered second packing pass in Reports, a bisection over a list that is sorted by
+another key, a verdict reused per work id inside one list, a sliding cache expiry, a gc queue that trusts its own
+timestamps, a check-then-write race in the result store, a batch cut at cap() instead of len(), a queue compaction
+that drops one item per 128 pops, a reader goroutine ended by the wrong channel, and the swapped order of two atomic
+operations in `recoverer.Start`, which no schedule of the harness hit but which **broke the translation obligation
+`C18_gen_start_swap`** (reported as no-failing-input-found). The four misses: a work-id memo keyed without the log's
+block hash (C05: a log re-included on another fork, seen by the long-lived instances in consecutive rounds), all
+observations of a round decoded into one reused value (C09: the recovery path had not been part of the multi-node
+scenarios at all - op `recov` with liveness obligations; C05 flags the change too), a worker lost per contained panic
+(C18 part E: more panics than workers, then a healthy check), and an Increment that blocks its caller once the
+tracker is decided (C20: 150 more blocks after the verdict is fixed).
 A rewritten function usually leaves the translator's subset: the obligation of that unit is then checked
 against the pinned term only and the property is explored as *drifted* (twice the cases, three seeds) - of
 the 45 first-run catches, the translator obligations broke (proof-level catch, then a failing input found by
